@@ -1,3 +1,4 @@
+\* used with a copy of Reads.tla in which CountInAsAddressFilter == TRUE (the rule before the repair): PushSafe must FAIL
 SPECIFICATION Spec
 CONSTANTS
   Depth = 2
